@@ -3,6 +3,7 @@ package alias
 import (
 	"fmt"
 	"sort"
+	"strings"
 	"sync"
 
 	"github.com/obolnetwork/charon/core"
@@ -23,6 +24,7 @@ type Obs struct {
 	Static    int    `json:"static"` // overlaps outside the heap (ignored)
 	StaticAt  string `json:"static_at,omitempty"`
 	Changed   bool   `json:"changed"` // an observer's snapshot changed after the mutation
+	Hidden    bool   `json:"hidden"`  // the change was seen only in what the component answered afterwards (memory held inside the component)
 	What      string `json:"what"`    // first difference
 	Leaf      string `json:"leaf"`    // a leaf of A that lies in memory reachable from the observer
 	Verdict   string `json:"verdict"` // clone | share
@@ -151,6 +153,7 @@ func observe(path, typ, shape string, a Named, held []Named, rereads []Reread) O
 		after := snapOrErr(v, err)
 		if d := Diff(rrBefore[i].snap, after); d != "" && !o.Changed {
 			o.Changed = true
+			o.Hidden = true
 			o.What = r.Name + " (queried again)" + d
 			if err != nil {
 				o.What += fmt.Sprintf(" [%v]", err)
@@ -160,6 +163,9 @@ func observe(path, typ, shape string, a Named, held []Named, rereads []Reread) O
 	o.Verdict = "clone"
 	if o.Overlap > 0 || o.Changed {
 		o.Verdict = "share"
+	}
+	if o.Changed && o.Leaf == "" {
+		o.Leaf = guessLeaf(a.Name, wa, o.What)
 	}
 	o.Ignored = IgnoredSummary(wa.Ignored)
 	obsMu.Lock()
@@ -192,4 +198,26 @@ func must[T any](v T, err error) T {
 	}
 
 	return v
+}
+
+// guessLeaf names the leaf of the mutated value that corresponds to the changed cell of an
+// observer when the shared memory is held inside a component (invisible to the address
+// intersection): the leaf with the same trailing field path.
+func guessLeaf(name string, wa *Walk, what string) string {
+	p := what
+	if i := strings.Index(p, ": "); i >= 0 {
+		p = p[:i]
+	}
+	i := strings.LastIndex(p, ".")
+	if i < 0 {
+		return ""
+	}
+	suffix := p[i:]
+	for _, l := range wa.Leaves {
+		if strings.HasSuffix(l.Path, suffix) {
+			return name + l.Path + " (matched by field path; the shared memory is held inside the component)"
+		}
+	}
+
+	return ""
 }
